@@ -333,6 +333,17 @@ def run(ctx):
                     if tracked_params(cb) and any(in_scope(x.body) for x in F.callers_of(cb.path, crates=[CR])):
                         helpers.add(cb.def_)
                     changed = True
+    # a closure run through `for_each` is the body of a loop of its caller: simulated there (mq.bufsim._loop_closure), not as a unit
+    from mq.bufsim import loop_closures
+    for b in list(F.all_bodies(CR)):
+        if not in_scope(b) or b.path.startswith(CR + "::buf::"):
+            continue
+        for cl in loop_closures(F, b, CR):
+            if cl.def_ in evset:
+                helpers.add(cl.def_)
+                if b.def_ not in evset:
+                    evset.add(b.def_)
+                    eventful.append(b)
     roots = [b for b in eventful if b.def_ not in helpers and "PushJsonSafeString" not in b.path]
     ctx.floor("R02.2", "bodies with buffer events", len(eventful), 6)
     ctx.floor("R02.2", "typestate roots", len(roots), 4)
